@@ -72,6 +72,12 @@ func doOp(c *valid.LRUCache, code int64) []int64 {
 }
 
 func genCode(r *gal.Rng, nkeys int, withDump bool) int64 {
+	if nkeys == 1 { // contention stream: everybody stores / deletes the same key
+		if r.Intn(3) == 0 {
+			return 2 * 1000000
+		}
+		return int64(r.Range(1, 9))
+	}
 	k := int64(r.Intn(nkeys))
 	switch x := r.Intn(12); {
 	case x < 4:
@@ -167,6 +173,9 @@ func lruConcWorker(args []string) {
 		}
 		_ = enc.Encode(oneConcRun(r, "small", r.Intn(3), g, perG, 3))
 	}
+	for i := 0; i < nsmall*3; i++ { // check-then-act windows: 3..8 goroutines hammer one key
+		_ = enc.Encode(oneConcRun(r, "contend", r.Range(1, 2), r.Range(3, 8), 24, 1))
+	}
 	for i := 0; i < nlarge; i++ {
 		nkeys := 4
 		if r.Bool() {
@@ -253,7 +262,7 @@ func runC10(c *Ctx) error {
 					w.Count("small.with_overlapping_calls")
 				}
 			}
-			w.Add(fmt.Sprintf("CQuiesce %d %d %d", run.Cap, run.Len, run.Lines),
+			w.Add(fmt.Sprintf("CQuiesce %d %s %d", run.Cap, galZ(int64(run.Len)), run.Lines),
 				map[string]interface{}{"kind": "quiescent " + run.Kind, "cap": run.Cap, "goroutines": run.G, "ops": run.Ops, "len": run.Len, "dump_lines": run.Lines},
 				fmt.Sprintf("q:%s:cap%d:g%d:len%d", run.Kind, run.Cap, run.G, run.Len))
 			w.Count("quiescent." + run.Kind)
